@@ -137,8 +137,8 @@ def differential_obligations(prop, tier, seed):
             for su in list(suites):
                 futs[su + "@no-prefetch-feature"] = ex.submit(replay_search.run_suite, su, secs, seed, True)
             suites = suites + [su + "@no-prefetch-feature" for su in suites]
-        if prop == "C10":
-            # C10 speaks of builds with and without debug assertions: the same suites on a plain release build
+        if prop in ("C10", "C04"):
+            # C10 / C04 speak of builds with and without debug assertions (and overflow checks): the same suites on a plain release build
             # (no overflow checks, no debug assertions); a panic-only difference shows in the first kind, a silently
             # wrong value guarded by a debug assertion in the second
             for su in list(suites):
